@@ -45,6 +45,10 @@ func NewPattern(components ...any) Pattern {
 		case Wildcard:
 			if len(comps) == 0 || comps[len(comps)-1].Literal != "" {
 				comps = append(comps, patternComponent{Wildcard: true, Literal: ""})
+			} else {
+				// Nothing has to be matched between the last component and this wildcard: consecutive wildcards
+				// are one wildcard, and a pattern which starts with empty literals starts with the wildcard.
+				comps[len(comps)-1].Wildcard = true
 			}
 		default:
 			panic(fmt.Sprintf("unexpected component type: %T", v))
